@@ -4428,7 +4428,12 @@ class Qube(object):
     def _raise_unsupported_op(op, obj1, obj2=None):
         """Raise a TypeError or ValueError for unsupported operations."""
 
-        opstr = obj1._opstr(op)
+        if isinstance(obj1, Qube):
+            opstr = obj1._opstr(op)
+        elif isinstance(obj2, Qube):    # reflected form: obj1 is the raw operand
+            opstr = obj2._opstr(op)
+        else:
+            opstr = '"' + op + '"'
 
         if obj2 is None:
             raise TypeError('unsupported operand type for %s: %s'
